@@ -467,7 +467,8 @@ class AASDataChecker(DataChecker):
                                             len(expected_value.annotation))
         for expected_data_element in expected_value.annotation:
             try:
-                object_.get_referable(expected_data_element.id_short)
+                element = object_.get_referable(expected_data_element.id_short)
+                self._check_submodel_element(element, expected_data_element)  # type: ignore
             except KeyError:
                 self.check(False, 'Annotation {} must exist'.format(repr(expected_data_element)))
 
